@@ -84,7 +84,10 @@ void SLL::write_serialization(uint8_t* buffer, uint32_t total_sz) {
     OutputMemoryStream stream(buffer, total_sz);
     if (inner_pdu()) {
         Constants::Ethernet::e flag = Internals::pdu_to_ether_type(*inner_pdu());
-        protocol(static_cast<uint16_t>(flag));
+        // Only overwrite the protocol if the inner PDU maps to a known one
+        if (flag != Constants::Ethernet::UNKNOWN) {
+            protocol(static_cast<uint16_t>(flag));
+        }
     }
     stream.write(header_);
 }
